@@ -7,6 +7,8 @@ import XmppModel.Lemmas.SendGuard
 import XmppModel.Generated.C05
 import XmppModel.Model.ValueForms
 import XmppModel.Model.Transport
+import XmppModel.Model.SendFlush
+import XmppModel.Lemmas.SendFlush
 /-!
 # C05 — each transmit call puts exactly its own element on the wire, whole
 
@@ -28,24 +30,25 @@ before any non-deferred unlock; `held` = an unexported helper, *every* reference
 (call, method value) is made with the lock held — by a locked function, a holder method, or,
 recursively, a held helper; `probe` = as `held`, and the function only inspects the encoder's
 state through a type assertion; `holder` = a method of the type `TokenWriter` returns (made
-only with the lock held: `C05_gen_tokenwriter_holds_lock`); `setup` = `negotiateSession` /
-`writeStreamFeatures` (stream negotiation: no other goroutine has the session yet).
+only with the lock held: `C05_gen_tokenwriter_holds_lock`); `setup` = a function that can only run
+while a session is being made (structural, see `C05_gen_lock_discipline`: no other goroutine has
+the session yet).
 Anything else is reported as `unlocked` / `unlocked-probe`. -/
 def protectedClass (c : String) : Bool :=
   c == "locked" || c == "held" || c == "probe" || c == "holder" || c == "setup"
 
-/-- the functions that may write while the stream is being negotiated -/
-def setupFns : List String := ["negotiateSession", "writeStreamFeatures"]
-
-/-- the table is there, the token writer's methods are in it (class `holder`), and only the two
-negotiation functions are excused as `setup`.  That `Encode`, `EncodeElement`, `Send`,
-`SendElement` take the lock — themselves or through an unexported function they delegate to —
-is part of `C05_gen_broken_guard` (no row is pinned by name: a maintainer may move the locking
-body of an entry point into a helper) -/
+/-- the table is there, the token writer's methods are in it (class `holder`), locked functions
+exist, and so do functions of class `setup`.  `setup` is decided by the extractor STRUCTURALLY
+since round E (review A-4; it was a list of two function names): an unexported top-level
+function every reference to which sits in a top-level function — never in a method of any type,
+never in a `go` statement — that is exported and takes no `*Session` (a constructor) or is
+itself `setup`; such a function only runs while the session is being made.  That `Encode`,
+`EncodeElement`, `Send`, `SendElement` take the lock — themselves or through an unexported
+function they delegate to — is part of `C05_gen_broken_guard` (no row is pinned by name: a
+maintainer may rename or split any unexported function) -/
 theorem C05_gen_lock_discipline :
     ∃ t, Generated.C05.transmitFns = some t ∧
-      (∃ p ∈ t, p.2 = "holder") ∧ (∃ p ∈ t, p.2 = "locked") ∧
-      (∀ p ∈ t, p.2 = "setup" → p.1 ∈ setupFns) := by
+      (∃ p ∈ t, p.2 = "holder") ∧ (∃ p ∈ t, p.2 = "locked") ∧ (∃ p ∈ t, p.2 = "setup") := by
   refine ⟨_, rfl, by decide, by decide, by decide⟩
 
 /-- `TokenWriter` takes the output lock before it hands out the writer (and does not release
@@ -70,8 +73,9 @@ read do not matter), and outside the type only stream negotiation (which builds 
 writes to such a field -/
 theorem C05_gen_encoder_methods :
     Generated.C05.stanzaEncoderMethods = some ["EncodeToken"] ∧
-    ∃ o, Generated.C05.stanzaEncoderOutsideWriters = some o ∧ ∀ f ∈ o, f ∈ setupFns := by
-  refine ⟨by decide, _, rfl, by decide⟩
+    ∃ o t, Generated.C05.stanzaEncoderOutsideWriters = some o ∧ Generated.C05.transmitFns = some t ∧
+      ∀ f ∈ o, t.any (fun p => p.1 == f && p.2 == "setup") = true := by
+  refine ⟨by decide, _, _, rfl, rfl, by decide⟩
 
 /-- every one-shot transmit entry point refuses to write when the previous write was abandoned
 inside an element (hypothesis `guard = true` of the fault theorems), and it finds that out
@@ -167,9 +171,14 @@ theorem C05_stanza_attrs (cfg : Cfg) (fresh : String) (n : Name) (as : List Attr
     · split <;> simp [notXmlns, fromAttr]
   · split <;> simp [notXmlns, idAttr]
 
-/-- every outgoing stanza carries the content namespace (or the one the caller chose among the
-two stanza namespaces) -/
-theorem C05_stanza_ns (cfg : Cfg) (fresh : String) (n : Name) (as : List Attr)
+/-- FULL statement of the clause "every outgoing stanza carries the stream's content namespace":
+`(fillNs cfg n).space = cfg.ns` for every name the encoder treats as a stanza.  That is FALSE
+(`C05_stanza_ns_fails`): a name that already carries the OTHER stanza namespace is treated as a
+stanza (id / from are stamped) and keeps its namespace.  Proved here (partial): the namespace is
+the stream's or one of the two stanza namespaces, the local name is kept.  Full strength under
+the hypothesis that the caller did not name the other namespace: `C05_stanza_ns_stream`.
+(round E, review A-2; the statement used to carry the unqualified name) -/
+theorem C05_stanza_ns_partial (cfg : Cfg) (fresh : String) (n : Name) (as : List Attr)
     (hs : isStanzaEmptySpace n = true) :
     tokName (encStart cfg fresh 1 n as) = some (fillNs cfg n) ∧
     ((fillNs cfg n).space = cfg.ns ∨ (fillNs cfg n).space = nsClient ∨ (fillNs cfg n).space = nsServer) ∧
@@ -185,19 +194,51 @@ theorem C05_stanza_ns (cfg : Cfg) (fresh : String) (n : Name) (as : List Attr)
     · right; right; exact h1
     · simp [h1] at h
 
-/-- every outgoing stanza carries a non-empty id -/
+/-- **the stream's content namespace**: a stanza whose name carries no namespace or the stream's
+own goes out in the stream's content namespace -/
+theorem C05_stanza_ns_stream (cfg : Cfg) (fresh : String) (n : Name) (as : List Attr)
+    (hs : isStanzaEmptySpace n = true) (hn : n.space = "" ∨ n.space = cfg.ns) :
+    tokName (encStart cfg fresh 1 n as) = some ⟨cfg.ns, n.loc⟩ := by
+  simp only [encStart, hs, tokName, Bool.and_true, BEq.rfl, if_true, Option.some.injEq]
+  unfold fillNs
+  rcases hn with h | h
+  · simp [h]
+  · split
+    · rfl
+    · obtain ⟨sp, lo⟩ := n; simp_all
+
+/-- negation witness of the full clause (known finding `stream-namespace / other-stanza-namespace`):
+on a `jabber:client` stream `{jabber:server}message` is completed like a stanza (an id is
+generated) and goes out in `jabber:server` -/
+theorem C05_stanza_ns_fails :
+    let t := encStart ⟨nsClient, ""⟩ "ID#" 1 ⟨nsServer, "message"⟩ []
+    tokName t = some ⟨nsServer, "message"⟩ ∧ (∃ a ∈ startAttrs t, a.name = ⟨"", "id"⟩ ∧ a.value = "ID#") ∧
+    ¬ (∀ (cfg : Cfg) (n : Name), isStanzaEmptySpace n = true → (fillNs cfg n).space = cfg.ns) := by
+  refine ⟨by decide, by decide, fun h => ?_⟩
+  have := h ⟨nsClient, ""⟩ ⟨nsServer, "message"⟩ (by decide)
+  revert this
+  decide
+
+theorem isPlain_iff (a : Attr) (l : String) : isPlain a l = true ↔ a.name = ⟨"", l⟩ := by
+  obtain ⟨⟨sp, lo⟩, v⟩ := a
+  simp [isPlain]
+
+/-- every outgoing stanza carries a non-empty id: THE `id` attribute, full name (no namespace) —
+round E: the statement was about any attribute with the local name `id` before, which `xml:id`
+satisfies (review A-1) -/
 theorem C05_id_nonempty (cfg : Cfg) (fresh : String) (n : Name) (as : List Attr)
     (hs : isStanzaEmptySpace n = true) (hns : cfg.ns ≠ "") (hf : fresh ≠ "") :
-    ∃ a ∈ startAttrs (encStart cfg fresh 1 n as), a.name.loc = "id" ∧ a.value ≠ "" := by
+    ∃ a ∈ startAttrs (encStart cfg fresh 1 n as), a.name = ⟨"", "id"⟩ ∧ a.value ≠ "" := by
   rw [C05_stanza_attrs cfg fresh n as hs hns]
   by_cases hfound : found as "id" = true
-  · simp only [found, List.any_eq_true, Bool.and_eq_true, beq_iff_eq, bne_iff_ne, ne_eq] at hfound
+  · simp only [found, List.any_eq_true, Bool.and_eq_true, bne_iff_ne, ne_eq] at hfound
     obtain ⟨a, ha, hl, hv⟩ := hfound
-    refine ⟨a, ?_, hl, hv⟩
+    refine ⟨a, ?_, (isPlain_iff a "id").1 hl, hv⟩
     simp only [List.mem_append, List.mem_filter]
     left; left
     refine ⟨ha, ?_⟩
-    simp [keepAttr, notXmlns, hl, hv]
+    have hn := (isPlain_iff a "id").1 hl
+    simp [keepAttr, notXmlns, isPlain, hn, hv]
   · refine ⟨idAttr fresh, ?_, rfl, hf⟩
     simp [hfound]
 
@@ -205,18 +246,19 @@ theorem C05_id_nonempty (cfg : Cfg) (fresh : String) (n : Name) (as : List Attr)
 the caller's, else the encoder's -/
 theorem C05_from_cfg (cfg : Cfg) (fresh : String) (n : Name) (as : List Attr)
     (hs : isStanzaEmptySpace n = true) (hns : cfg.ns ≠ "") (hfrom : cfg.from_ ≠ "") :
-    ∃ a ∈ startAttrs (encStart cfg fresh 1 n as), a.name.loc = "from" ∧ a.value ≠ "" ∧
+    ∃ a ∈ startAttrs (encStart cfg fresh 1 n as), a.name = ⟨"", "from"⟩ ∧ a.value ≠ "" ∧
       (found as "from" = false → a.value = cfg.from_) := by
   rw [C05_stanza_attrs cfg fresh n as hs hns]
   by_cases hfound : found as "from" = true
   · have hfound' := hfound
-    simp only [found, List.any_eq_true, Bool.and_eq_true, beq_iff_eq, bne_iff_ne, ne_eq] at hfound
+    simp only [found, List.any_eq_true, Bool.and_eq_true, bne_iff_ne, ne_eq] at hfound
     obtain ⟨a, ha, hl, hv⟩ := hfound
-    refine ⟨a, ?_, hl, hv, fun h => by simp [hfound'] at h⟩
+    have hn := (isPlain_iff a "from").1 hl
+    refine ⟨a, ?_, hn, hv, fun h => by simp [hfound'] at h⟩
     simp only [List.mem_append, List.mem_filter]
     left; left
     refine ⟨ha, ?_⟩
-    simp [keepAttr, notXmlns, hl, hv]
+    simp [keepAttr, notXmlns, isPlain, hn, hv]
   · refine ⟨fromAttr cfg, ?_, rfl, hfrom, fun _ => rfl⟩
     simp [hfound, hfrom]
 
@@ -260,7 +302,7 @@ it is exactly the address `LocalAddr()` reports -/
 theorem C05_from_s2s (a : Addrs) (fresh : String) (n : Name) (as : List Attr)
     (hs : isStanzaEmptySpace n = true) (hl : a.localAddr ≠ "") :
     ∃ x ∈ startAttrs (encStart (sessionCfg genFromSource nsServer a) fresh 1 n as),
-      x.name.loc = "from" ∧ x.value ≠ "" ∧ (found as "from" = false → x.value = a.localAddr) := by
+      x.name = ⟨"", "from"⟩ ∧ x.value ≠ "" ∧ (found as "from" = false → x.value = a.localAddr) := by
   rw [C05_gen_from_source.1]
   have hc : sessionCfg .localAddr nsServer a = ⟨nsServer, a.localAddr⟩ := by
     simp [sessionCfg, FromSource.pick, Addrs.localAddr]
@@ -279,7 +321,7 @@ theorem C05_from_s2s_fails_out_from :
 /-- on a client stream (no encoder address) no `from` is invented -/
 theorem C05_from_c2s (cfg : Cfg) (fresh : String) (n : Name) (as : List Attr)
     (hs : isStanzaEmptySpace n = true) (hns : cfg.ns ≠ "") (hfrom : cfg.from_ = "")
-    (a : Attr) (ha : a ∈ startAttrs (encStart cfg fresh 1 n as)) (hl : a.name.loc = "from") : a ∈ as := by
+    (a : Attr) (ha : a ∈ startAttrs (encStart cfg fresh 1 n as)) (hl : a.name = ⟨"", "from"⟩) : a ∈ as := by
   rw [C05_stanza_attrs cfg fresh n as hs hns] at ha
   simp only [hfrom, bne_self_eq_false, Bool.false_and, List.append_nil, List.mem_append,
     List.mem_filter, Bool.false_eq_true, if_false] at ha
@@ -289,28 +331,81 @@ theorem C05_from_c2s (cfg : Cfg) (fresh : String) (n : Name) (as : List Attr)
     · simp only [List.mem_singleton] at ha; subst ha; simp [idAttr] at hl
     · simp at ha
 
-/-- nothing else is altered: every attribute other than `id`, `from`, `xmlns` is passed through,
-in order, and none is added -/
+/-- the three attributes the encoder may touch, by FULL name -/
+def touchable (a : Attr) : Bool := isPlain a "id" || isPlain a "from" || isPlain a "xmlns"
+
+/-- nothing else is altered: every attribute other than `id`, `from`, `xmlns` (the attributes
+without a namespace of these names; `xml:id`, `{urn:x}from`, `{urn:x}xmlns` are "other") is
+passed through, in order, and none is added -/
 theorem C05_other_attrs_kept (cfg : Cfg) (fresh : String) (n : Name) (as : List Attr)
     (hs : isStanzaEmptySpace n = true) (hns : cfg.ns ≠ "") :
-    (startAttrs (encStart cfg fresh 1 n as)).filter
-        (fun a => a.name.loc != "id" && a.name.loc != "from" && a.name.loc != "xmlns") =
-      as.filter (fun a => a.name.loc != "id" && a.name.loc != "from" && a.name.loc != "xmlns") := by
+    (startAttrs (encStart cfg fresh 1 n as)).filter (fun a => !touchable a) =
+      as.filter (fun a => !touchable a) := by
   rw [C05_stanza_attrs cfg fresh n as hs hns]
   simp only [List.filter_append, List.filter_filter]
   have e1 : (if (cfg.from_ != "" && !found as "from") = true then [fromAttr cfg] else []).filter
-      (fun a => a.name.loc != "id" && a.name.loc != "from" && a.name.loc != "xmlns") = [] := by
-    split <;> simp [fromAttr]
+      (fun a => !touchable a) = [] := by
+    split <;> simp [fromAttr, touchable, isPlain]
   have e2 : (if (!found as "id") = true then [idAttr fresh] else []).filter
-      (fun a => a.name.loc != "id" && a.name.loc != "from" && a.name.loc != "xmlns") = [] := by
-    split <;> simp [idAttr]
+      (fun a => !touchable a) = [] := by
+    split <;> simp [idAttr, touchable, isPlain]
   rw [e1, e2]
   simp only [List.append_nil]
   apply List.filter_congr
   intro a _
-  simp only [keepAttr, notXmlns]
-  by_cases h1 : a.name.loc = "id" <;> by_cases h2 : a.name.loc = "from" <;>
-    by_cases h3 : a.name.loc = "xmlns" <;> simp [h1, h2, h3]
+  simp only [keepAttr, notXmlns, touchable, isPlain]
+  by_cases h0 : a.name.space = "" <;> by_cases h1 : a.name.loc = "id" <;> by_cases h2 : a.name.loc = "from" <;>
+    by_cases h3 : a.name.loc = "xmlns" <;> simp [h0, h1, h2, h3]
+
+/-- **namespaced attributes are never touched**, at any depth, stanza or not: the attributes
+that carry a namespace (`xml:lang`, `xml:id`, `{urn:x}id`, `{urn:x}from`, `{urn:x}xmlns`, …) of
+the start element written are exactly the caller's, in order (round E) -/
+theorem C05_namespaced_attrs_untouched (cfg : Cfg) (fresh : String) (d : Int) (n : Name) (as : List Attr) :
+    (startAttrs (encStart cfg fresh d n as)).filter (fun a => a.name.space != "") =
+      as.filter (fun a => a.name.space != "") := by
+  have hdrop : ∀ (m : Name) (l : List Attr),
+      (dropXmlns m l).filter (fun a => a.name.space != "") = l.filter (fun a => a.name.space != "") := by
+    intro m l
+    unfold dropXmlns
+    split
+    · rw [List.filter_filter]
+      apply List.filter_congr
+      intro a _
+      by_cases h0 : a.name.space = "" <;> simp [notXmlns, h0]
+    · rfl
+  unfold encStart
+  split
+  · simp only [startAttrs, hdrop, completeAttrs, List.filter_append, List.filter_filter]
+    have e1 : (if (cfg.from_ != "" && !found as "from") = true then [fromAttr cfg] else []).filter
+        (fun a => a.name.space != "") = [] := by
+      split <;> simp [fromAttr]
+    have e2 : (if (!found as "id") = true then [idAttr fresh] else []).filter
+        (fun a => a.name.space != "") = [] := by
+      split <;> simp [idAttr]
+    rw [e1, e2]
+    simp only [List.append_nil]
+    apply List.filter_congr
+    intro a _
+    by_cases h0 : a.name.space = "" <;> simp [keepAttr, isPlain, h0]
+  · simp only [startAttrs, hdrop]
+
+def xmlid : Attr := ⟨⟨"http://www.w3.org/XML/1998/namespace", "id"⟩, "x1"⟩
+def nsfrom : Attr := ⟨⟨"urn:a", "from"⟩, "o"⟩
+def nsid : Attr := ⟨⟨"urn:a", "id"⟩, ""⟩
+
+/-- the code before `fix: the stanza encoder takes any attribute with the local name …`
+(identification by local name): `<iq xml:id="x1">` goes out WITHOUT an id attribute,
+`{urn:a}from` suppresses the from of a server-to-server stanza, and an empty `{urn:a}id` is
+deleted — the three clauses fail for that encoder -/
+theorem C05_local_name_matching_fails :
+    (∀ a ∈ startAttrs (encStartLocal ⟨nsClient, ""⟩ "ID#" 1 ⟨"", "iq"⟩ [xmlid]), a.name ≠ ⟨"", "id"⟩) ∧
+    (∀ a ∈ startAttrs (encStartLocal ⟨nsServer, "me.example"⟩ "ID#" 1 ⟨"", "message"⟩ [nsfrom]), a.name ≠ ⟨"", "from"⟩) ∧
+    (∀ a ∈ startAttrs (encStartLocal ⟨nsClient, ""⟩ "ID#" 1 ⟨"", "presence"⟩ [nsid]), a ≠ nsid) ∧
+    -- the repaired encoder on the same inputs
+    (∃ a ∈ startAttrs (encStart ⟨nsClient, ""⟩ "ID#" 1 ⟨"", "iq"⟩ [xmlid]), a.name = ⟨"", "id"⟩ ∧ a.value = "ID#") ∧
+    (∃ a ∈ startAttrs (encStart ⟨nsClient, ""⟩ "ID#" 1 ⟨"", "iq"⟩ [xmlid]), a = xmlid) ∧
+    (∃ a ∈ startAttrs (encStart ⟨nsClient, ""⟩ "ID#" 1 ⟨"", "presence"⟩ [nsid]), a = nsid) := by
+  decide
 
 /-- an element that is not a stanza, or is not at top level, only loses `xmlns` attributes when
 it is namespaced -/
@@ -329,20 +424,22 @@ without namespace plus explicit `xmlns` attribute included): the start tag never
 default namespace twice -/
 theorem C05_single_ns_declaration (cfg : Cfg) (fresh : String) (d : Int) (n : Name) (as : List Attr)
     (m : Name) (hm : tokName (encStart cfg fresh d n as) = some m) (hsp : m.space ≠ "") :
-    ∀ a ∈ startAttrs (encStart cfg fresh d n as), a.name.loc ≠ "xmlns" := by
+    ∀ a ∈ startAttrs (encStart cfg fresh d n as), a.name ≠ ⟨"", "xmlns"⟩ := by
   unfold encStart at hm ⊢
   by_cases hc : (d == 1 && isStanzaEmptySpace n) = true
   · rw [if_pos hc] at hm ⊢
     simp only [tokName, Option.some.injEq] at hm
     simp only [startAttrs, dropXmlns, hm, bne_iff_ne, ne_eq, hsp, not_false_eq_true, if_true]
-    intro a ha
-    simpa [notXmlns] using (List.mem_filter.mp ha).2
+    intro a ha hn
+    have := (List.mem_filter.mp ha).2
+    simp [notXmlns, hn] at this
   · rw [if_neg hc] at hm ⊢
     simp only [tokName, Option.some.injEq] at hm
     subst hm
     simp only [startAttrs, dropXmlns, bne_iff_ne, ne_eq, hsp, not_false_eq_true, if_true]
-    intro a ha
-    simpa [notXmlns] using (List.mem_filter.mp ha).2
+    intro a ha hn
+    have := (List.mem_filter.mp ha).2
+    simp [notXmlns, hn] at this
 
 /-- the order of the two steps matters: with the `xmlns` loop BEFORE the stamping step a
 top-level `<message xmlns="jabber:client">` given with no namespace in its name keeps the
@@ -938,6 +1035,85 @@ theorem C05_gen_conn_write_exact :
 /-- non-vacuity of `C05_transport_exact`: a write cut short with a temporary error; the wire is
 the accepted prefix, the failure is reported -/
 example : Transport.flushChunks Transport.writeOnce [⟨3, some .temp⟩] [[1, 2, 3, 4, 5, 6, 7, 8], [9]] = ([1, 2, 3], false) := by
+  decide
+
+def twoSiblings : List Tok :=
+  [.start ⟨"urn:a", "a"⟩ [], .stop ⟨"urn:a", "a"⟩, .start ⟨"urn:a", "b"⟩ [], .stop ⟨"urn:a", "b"⟩]
+
+/-- "exactly ONE complete top-level element" FAILS for `Encode` of a value that encodes to
+several sibling elements (its own tokens or printed): all of them are handed to the encoder and
+the call reports success (known finding `one-element / value-of-many-elements`; review A-5),
+whereas `Send` of the same tokens transmits the first element only (`C05_send_whole`) -/
+theorem C05_encode_one_element_fails :
+    topCount 0 (wireToks ⟨nsClient, ""⟩ "ID#" (ValueForms.handed .readerToks twoSiblings)) = 2 ∧
+    topCount 0 (wireToks ⟨nsClient, ""⟩ "ID#" (ValueForms.handed .marshalXML twoSiblings)) = 2 ∧
+    (sendToks twoSiblings).toOption.map (fun o => topCount 0 (wireToks ⟨nsClient, ""⟩ "ID#" o)) = some 1 := by
+  decide
+
+/-- regenerated PROBE fact (round E, review A-4): every exported method of `*xmpp.Session`, found
+by reflection and called on a fresh real session with synthesized arguments (and an unhandled IQ
+on the input, so that a serving method writes the automatic reply): whoever wrote to the
+connection did so with the output lock held at EVERY write.  This is what makes every modelled
+call a locking call (`locks i = true` in `C05_atomic`), as behaviour instead of source text: a
+new method that writes to the connection directly, without the lock and without mentioning the
+encoder, is a row with `held = false`.  Non-vacuity: at least 20 methods wrote, `Send`, `Encode`
+and the serving method among them. -/
+theorem C05_gen_writes_under_lock :
+    ∃ rows, Generated.C05.lockProbe = some rows ∧
+      (∀ r ∈ rows, r.2.1 = true → r.2.2 = true) ∧
+      20 ≤ (rows.filter (fun r => r.2.1)).length ∧
+      (rows.filter (fun r => r.2.1)).any (fun r => r.1 == "Send") = true ∧
+      (rows.filter (fun r => r.2.1)).any (fun r => r.1 == "Encode") = true ∧
+      (rows.filter (fun r => r.2.1)).any (fun r => r.1 == "Serve") = true := by
+  refine ⟨_, rfl, by decide, by decide, by decide, by decide, by decide⟩
+
+/-! ### a call that returned nil HAS put its element on the output stream (round E, seeded C05-19) -/
+
+open SendFlush in
+/-- **returned ⇒ on the wire**: with the unconditional flush at the end of every transmit call
+(`send`, `Encode`, `EncodeElement`, the token writer's `Close`), for ANY number of calls, every
+program (calls that give up after k items — k = 0: the reader fails on the first token, not a
+start element, closed stream — without flushing), every schedule and every placement of
+buffer spills: at every moment, each call that has returned nil has its complete block on the
+WIRE (not in the buffer), contiguous, ending where the stream stood when it returned; every
+call in state `ok` is such a call.  It does not matter who is queued for the lock. -/
+theorem C05_returned_on_wire {α : Type} (p : Prog α) (hp : p.lazy = false) (sched : List Act) :
+    let s := run p (init α) sched
+    (∀ i, s.pc i = .ok → ∃ e, (i, e) ∈ s.rets) ∧
+    ∀ r ∈ s.rets, ∃ pre post, s.wire = pre ++ p.job r.1 ++ post ∧ (pre ++ p.job r.1).length = r.2 := by
+  intro s
+  have inv := inv_run p hp sched (init α) (inv_init p)
+  exact ⟨inv.ok_ret, fun r hr => returned_on_wire inv r hr⟩
+
+/-- the program of the witness: call 0 sends `a`; call 1 queues behind it and then gives up
+before its first item (its token reader fails) -/
+def queuedQuitter (lazy : Bool) : SendFlush.Prog String :=
+  { job := fun i => if i = 0 then ["a"] else ["b"], stopAt := fun i => if i = 1 then some 0 else none, lazy := lazy }
+
+def queuedQuitterSched : List SendFlush.Act :=
+  [.call 0, .call 0, .call 0, .call 1, .call 0, .call 1, .call 1]
+
+open SendFlush in
+/-- **the hypothesis is necessary** (the "group commit" of seeded C05-19): when the final flush
+is skipped because another call is queued, and that call then ends without flushing, call 0 has
+returned nil and NOTHING is on the wire; with the unconditional flush the same schedule has `a`
+on the wire at that point -/
+theorem C05_group_commit_loses_element :
+    (let s := run (queuedQuitter true) (init String) queuedQuitterSched
+     s.pc 0 = .ok ∧ s.pc 1 = .err ∧ s.lock = none ∧ s.wire = [] ∧ s.buf = ["a"]) ∧
+    (let s := run (queuedQuitter false) (init String) queuedQuitterSched
+     s.pc 0 = .ok ∧ s.pc 1 = .err ∧ s.lock = none ∧ s.wire = ["a"] ∧ s.buf = []) := by
+  decide
+
+/-- non-vacuity of `C05_returned_on_wire`: three calls queued at once, the second gives up before its
+first item, a spill in the middle of the first; both successful calls are on the wire -/
+example :
+    let p : SendFlush.Prog String :=
+      { job := fun i => if i = 0 then ["a", "b"] else if i = 1 then ["x"] else ["c"],
+        stopAt := fun i => if i = 1 then some 0 else none, lazy := false }
+    let s := SendFlush.run p (SendFlush.init String)
+      [.call 0, .call 1, .call 2, .call 0, .call 0, .spill 1, .call 0, .call 0, .call 1, .call 1, .call 2, .call 2, .call 2]
+    s.wire = ["a", "b", "c"] ∧ s.rets = [(0, 2), (2, 3)] ∧ s.pc 1 = .err := by
   decide
 
 end XmppModel.Props.C05
